@@ -115,7 +115,8 @@ func GenRPC(rng *rand.Rand, id string, o ScriptOpts) *RPCSpec {
 			spec.Handler = append(spec.Handler, pace(rng, o.Pacing)...)
 		}
 		spec.Handler = append(spec.Handler, Op{K: "recv"}) // EOF
-		if ret.Code == codes.OK {
+		if ret.Code == codes.OK || rng.Intn(2) == 0 {
+			// (also: the response is written and the handler then fails)
 			spec.Handler = append(spec.Handler, Op{K: "send", N: o.size(rng)})
 		}
 		spec.Handler = append(spec.Handler, hpost...)
